@@ -234,3 +234,9 @@ def run(ctx):
             if isinstance(n, ast.Compare) and "'-type'" in norm(n) and full in names_in(n) and len(n.ops) == 1 and isinstance(n.ops[0], (ast.NotEq, ast.Eq)):
                 ok = True
     ctx.check("C09.R5", "_validate_record: datum['-type'] is compared with the schema's full name", ok, vr.where(), "_validate_record: '-type' handling", "a '-type' hint must select exactly the record branch with that full name")
+
+    # ---- shared ----
+    ctx.borrow("C02", {"C02.R1": "C09.R6", "C02.R2": "C09.R7"}, "closure under read/write needs the union index written to be the chosen branch's position followed by that branch's encoding", only=lambda o: "union" in o["instance"])
+    ctx.borrow("C10", {"C10.R4": "C09.R8"}, "un-hinted selection is gated by the validators: a record validator that sees another value than the writer writes selects a branch the datum is not encoded under")
+
+
